@@ -85,7 +85,8 @@ func c12ModelValid(nodes []fixedtree.Node) bool {
 
 // c12ModelVerify is the reference proof verifier, used only to name the root cause of a wrongly accepted proof
 // (the verdict itself never depends on it): 0 = the proof authenticates key; 1 = the node carrying the key does not
-// hash over the pair below it; 2 = the chain from that node to the last node is broken; 3 = malformed.
+// hash over the pair below it but the other node of its pair does; 4 = neither does; 2 = the chain from that node to
+// the last node is broken; 3 = malformed.
 func c12ModelVerify(nodes []fixedtree.Node, key string) int {
 	at := -1
 
@@ -122,7 +123,15 @@ func c12ModelVerify(nodes []fixedtree.Node, key string) int {
 
 	h := c12Hash(key, l, r)
 	if nodes[at].Hash() == nil || !bytes.Equal(h[:], nodes[at].Hash().Bytes()) {
-		return 1
+		if at != len(nodes)-1 {
+			if pn := nodes[at^1]; pn != nil && !pn.IsEmpty() && pn.Hash() != nil {
+				if ph := c12Hash(pn.Key(), l, r); bytes.Equal(ph[:], pn.Hash().Bytes()) {
+					return 1 // ... but the other node of its pair does
+				}
+			}
+		}
+
+		return 4
 	}
 
 	// upper levels: the pair must be hashed by a node of the next pair (either one: both are bound to the level above)
@@ -153,6 +162,19 @@ func c12ModelVerify(nodes []fixedtree.Node, key string) int {
 	}
 
 	return 0
+}
+
+func c12ForgerySig(nodes []fixedtree.Node, key string) string {
+	switch c12ModelVerify(nodes, key) {
+	case 1:
+		return "prove-pair-partner-satisfies-key-check"
+	case 4:
+		return "prove-key-node-hash-unchecked"
+	case 2:
+		return "prove-broken-chain-accepted"
+	default:
+		return "prove-nonmember-accepted"
+	}
 }
 
 // ---------------------------------------------------------------------------------------------
@@ -671,14 +693,7 @@ func (c *c12T) checkProof(t ev.TB, r *ev.Rec, what string, idx int, allMut bool,
 			}
 
 			if newkey != "" && bytes.Equal(nodes[len(nodes)-1].Hash().Bytes(), c.hs[0][:]) && c12Accepted(mp, newkey) {
-				sig := "prove-nonmember-accepted"
-
-				switch c12ModelVerify(nodes, newkey) {
-				case 1:
-					sig = "prove-pair-partner-satisfies-key-check"
-				case 2:
-					sig = "prove-broken-chain-accepted"
-				}
+				sig := c12ForgerySig(nodes, newkey)
 
 				r.Violation(t, sig, "%s -> %q: the forged proof passes IsValid and Prove(%q) under the genuine root although %q is not a key of the tree",
 					desc, newkey, newkey, newkey)
@@ -728,14 +743,7 @@ func (c *c12T) checkSplice(t ev.TB, r *ev.Rec, what string, idx int, b *c12T, st
 		r.Class("splice", 1)
 
 		if c12Accepted(fp, x) {
-			sig := "prove-nonmember-accepted"
-
-			switch c12ModelVerify(nodes, x) {
-			case 1:
-				sig = "prove-pair-partner-satisfies-key-check"
-			case 2:
-				sig = "prove-broken-chain-accepted"
-			}
+			sig := c12ForgerySig(nodes, x)
 
 			r.Violation(t, sig, "%s: spliced proof (lowest %d of %d pairs from the twin tree in which node %d is re-keyed to %q, rest and root genuine) "+
 				"passes IsValid and Prove(%q) although %q is not a key of the tree", what, m, h+1, idx, x, x, x)
